@@ -556,6 +556,7 @@ def run(ctx: Ctx) -> None:
     _r081(ctx)
     _r083(ctx)
     _r086(ctx)
-    from .c06 import cache_key_rule
+    from .c06 import cache_key_rule, frozen_rule
     cache_key_rule(ctx, 'R08.6')
+    frozen_rule(ctx, 'R08.3', 'panqec.codes')
     _r088(ctx)
